@@ -270,6 +270,24 @@ def _mutate(ctx, d, pgpy):
                     lost = [x[0] for x in b_ if x not in rest]
                     ctx.fail('adding-a-subpacket-changes-other-subpackets', {'kind': kind, 'signer': signer, 'area': area, 'added_to_hashed': hashed_, 'subpacket_types_changed': lost,
                                                                            'before': [(x[0], hx(x[2])[:40]) for x in b_ if x not in rest][:4], 'after': [(x[0], hx(x[2])[:40]) for x in rest if x not in b_][:4]})
+    # foreign protected secret-key packets (usage 254 and 255, every algorithm) after an unlock scope: still their own octets, and still a packet
+    from . import C06
+    for n_, name in enumerate(('rsa1024_0', 'dsa1024_0', 'ecdsa_p256_0', 'ed25519_0', 'cv25519_0', 'ecdh_p256_0')):
+        for usage in (254, 255):
+            fd = {'key': name, 'usage': usage, 'spec': [3, 1, 0][(n_ + usage) % 3], 'cipher': [7, 9, 3][(n_ + usage) % 3], 'halg': [8, 2][n_ % 2], 'cnt': 0x10}
+            fraw, fpw, fm = C06._foreign_blob(fd)
+            fk = pgpy.PGPKey.from_blob(fraw)[0]
+            try:
+                with fk.unlock(fpw.decode()):
+                    pass
+            except Exception as e:
+                ctx.fail('accepted-foreign-packet-cannot-be-serialised', {'where': {'mutated': 'foreign secret key unlocked', 'case': fd}, 'err': repr(e)[:160]})
+                continue
+            out_ = bytes(fk)
+            ctx.count('mutated_then_serialised')
+            if out_ != fraw:
+                ctx.fail('own-packet-reserialises-differently', {'where': {'mutated': 'foreign secret key after an unlock scope', 'case': fd}, 'lens': [len(fraw), len(out_)], 'packet': hx(fraw[-20:]), 'out': hx(out_[-20:])})
+            roundtrip_own(ctx, pgpy, out_, {'mutated': 'foreign secret key after an unlock scope', 'case': fd})
     # key: protected in place, copy of a parsed Latin-1 user id
     import copy
     # secret keys that arrived with old-format headers, protected in place with every cipher block size: the packet grows by
